@@ -76,6 +76,34 @@ CHECKS.update({
               "len+1 <= limit), the translator reading the two limits. Messages of 1 MiB or more are outside the property (the reader refuses them) and are not sent by the driver.")),
 })
 
+ALG_NOTE = ("Trusted: Lean kernel + the three standard axioms (Mathlib's LinearAlgebra.Lagrange is used by the proofs and re-checked by the kernel like "
+            "everything else); the verif hooks and the algdiff correspondence (real ceremonies; the Lean Shamir/DKG model over Z/r predicts every share and "
+            "recovered secret; prysm/blst verifies every signature value). Modelled, not verified: kyber/blst themselves, i.e. that BLS12-381 is an instance "
+            "of the abstract structure (field of scalars, vector-space groups, bilinear non-degenerate pairing); primality of r is a hypothesis of that "
+            "instantiation, not an axiom; the node/airgapped code paths around the algebra are exercised by the ceremonies, not proved.")
+CHECKS.update({
+    'C01': dict(
+        technique='Lean 4 + Mathlib theorems (Lagrange recovery over an arbitrary field, lifted to vector-space groups and a bilinear pairing) about the very list functions the driver runs over Z/r + differential algdiff on real ceremonies with prysm/blst as independent verifier',
+        text=("Proof. lean/Dc4bcVerif/Props/C01.lean: recover_eq_eval_zero / recover_shares (kyber's recovery weights applied to shares f(j+1) of any polynomial with t "
+              "coefficients, from any list of >= t participants with pairwise distinct nodes, in any order, return f(0)), recover_agree (any two such lists agree), "
+              "recover_signature (same in G2 for partial signatures), verify_recovered / reconstructed_signature_valid (the result satisfies the BLS verification "
+              "equation under the group key), unique_sig (non-degenerate pairing: a valid signature is unique). For every field, every n, t, subset and order. "
+              "Tie: algdiff runs full ceremonies on real nodes and airgapped machines; dealer coefficients read through hooks are handed to the compiled Lean "
+              "model, which must reproduce every machine's share and every recovery from real shares; every signature reconstructed, broadcast or stored is "
+              "verified with prysm under the group key over the proposed payload and compared byte for byte with bls.Sign(sum of dealer secrets)."),
+        ref='7 C01', note=ALG_NOTE),
+    'C02': dict(
+        technique='Lean 4 + Mathlib theorems (linearity of Pedersen-DKG bookkeeping, permutation invariance, Lagrange interpolation for t-1 insufficiency) + differential algdiff on real ceremonies + fsmdiff on the master-key phase with real polynomial encodings',
+        text=("Proof. lean/Dc4bcVerif/Props/C02.lean: share_on_pubpoly (if every deal to j passed the verification equation against its dealer's broadcast "
+              "commitments - whatever the dealers did - then j's final share lies on the sum of the commitment vectors), evalCommit_commit, pubpoly_order_indep "
+              "(delivery order irrelevant), sumCommits_length (degree t-1), group_key, t_minus_one_insufficient (t-1 shares are consistent with every secret); "
+              "with C01: any t shares sign consistently. Tie: algdiff compares on real ceremonies the machines' shares with the model, checks every share on the "
+              "common polynomial, the polynomial retained by every hot node, the announced master keys, g^(sum of secrets) = group key; fsmdiff covers the "
+              "master-key phase incl. announcements with equal key and differing / extended polynomial (real PubPolyBytes encodings). The FSM-level clause "
+              "'signing-ready implies equal master keys and the common polynomial retained' is covered by model agreement and Go monitors, not yet by a Lean theorem."),
+        ref='7 C02', note=ALG_NOTE),
+})
+
 PLANNED = ['C01', 'C02', 'C03', 'C04', 'C07', 'C08', 'C09', 'C10', 'C11', 'C12', 'C13', 'C14', 'C15', 'C16', 'C17', 'C18', 'C20']
 
 try:
